@@ -164,6 +164,8 @@ class Facts:
         self.skipped_non_src = d["hir"]["skipped_non_src"]
         # type-checked semantic actions of the generated parser (fn __actionN), kept apart from the source bodies
         self.gen_actions = d["hir"].get("generated_actions", [])
+        # `// Lhs = Sym, Sym => ActionFn(N);` lines of the generated parser, from the source text rustc compiled
+        self.gen_productions = d["hir"].get("generated_productions", [])
         self.unsafe_non_src = d["hir"].get("unsafe_non_src", -1)
         self.mir = d["mir"]["bodies"]
         self.adts = {a["path"]: a for a in d["adts"]["adts"]}
